@@ -245,19 +245,110 @@ def run_printers(rep, rng, n):
     return rows, found
 
 
+SECRET2 = "n3tRc-P4ss-W0rd"
+
+
+def run_taint(rep, rng, n):
+    """Complete runs with a password in a repository URL and another one coming from auth.conf, file lists
+    and clean scripts switched on, one failing pool file (error messages carry URLs): neither password may
+    appear in any path name below base_path, in the files of var/, or in anything that was logged."""
+    import logging
+    from . import pipeline as P
+    from . import runs as R
+    found = False
+    sb = P.sandbox("vsb_c20p_")
+    try:
+        for i in range(n):
+            scn = P.gen_scenario(rng, nrepos=2)
+            scn.repos[0]["url"] = f"http://alice:{SECRET}@h1/debian"
+            scn.repos[1]["url"] = "https://h2/ubuntu"
+            scn.auth_text = f"machine h2 login bob password {SECRET2}\nmachine https://h2/ubuntu/ login bob2 password {SECRET2}\n"
+            scn.autoclean = rng.random() < 0.5
+            scn.extra_lines = ["set write_file_lists on"]
+            files = R.files_of(scn)
+            plan = {}
+            for r in scn.repos:
+                pool = sorted(p for p in files[r["url"]] if p.startswith("pool/"))
+                if pool and rng.random() < 0.7:
+                    plan[r["url"]] = {rng.choice(pool): {"first": [], "rest": rng.choice(["error", "missing", "abort"])}}
+            records = []
+
+            class H(logging.Handler):
+                def emit(self, record):
+                    try:
+                        records.append(self.format(record))
+                    except Exception:  # noqa: BLE001
+                        records.append(str(record.msg))
+            h = H(level=logging.DEBUG)
+            root_logger = logging.getLogger()
+            old_level = root_logger.level
+            old_handlers = list(root_logger.handlers)
+            for oh in old_handlers:
+                root_logger.removeHandler(oh)      # the tool's console handler: keep the terminal quiet
+            logging.disable(logging.NOTSET)
+            root_logger.addHandler(h)
+            root_logger.setLevel(logging.DEBUG)
+            base = sb / f"t{i}"
+            try:
+                res = P.run_tool(scn, base, faults=R.realise_plan(plan, files), upstream_files=files)
+            finally:
+                root_logger.removeHandler(h)
+                for oh in old_handlers:
+                    root_logger.addHandler(oh)
+                root_logger.setLevel(old_level)
+                logging.disable(logging.CRITICAL)
+            leaks = []
+            for dirpath, dirnames, filenames in os.walk(base):
+                for nme in dirnames + filenames:
+                    full = os.path.join(dirpath, nme)
+                    rel = os.path.relpath(full, base)
+                    if SECRET in rel or SECRET2 in rel:
+                        leaks.append(f"path name {rel!r}")
+                    if nme in filenames and (rel.startswith("var" + os.sep)) and os.path.isfile(full):
+                        try:
+                            data = Path(full).read_text(errors="replace")
+                        except OSError:
+                            continue
+                        if SECRET in data or SECRET2 in data:
+                            leaks.append(f"content of {rel}")
+            for line in records:
+                if SECRET in line or SECRET2 in line:
+                    leaks.append(f"log line {line[:120]!r}")
+                    break
+            served = sum(sum(up.counts.values()) for up in res.ups.values())
+            rep.case(("taint", res.code, scn.autoclean, len(records) > 0, served > 0),
+                     sample={"exit": res.code, "log_lines": len(records), "requests": served})
+            rep.count("taint")
+            if served == 0 or not records:
+                found = True
+                rep.violation(f"taint run did not exercise the tool (requests {served}, log lines {len(records)}, {res.exc})",
+                              {"kind": "machinery", "tie": "taint", "case": {"i": i}}, tags={"oracle": "taint_vacuous"}, no_failing_input=True)
+            if leaks:
+                found = True
+                rep.violation(f"a password appears in {leaks[:3]}",
+                              {"kind": "oracle", "tie": "taint", "case": {"repos": scn.repos, "autoclean": scn.autoclean, "plan": plan}},
+                              tags={"oracle": "taint"})
+            shutil.rmtree(base, ignore_errors=True)
+    finally:
+        shutil.rmtree(sb, ignore_errors=True)
+    return found
+
+
 def run(rep: C.Report):
     rep.rule = ("auth files (several machines per file/line, missing login/password, unknown tokens, "
                 "auth.conf.d) x repository URLs over hosts/schemes/ports/paths/URL credentials; printers on "
                 "URLs carrying a secret token; distinct by (tie, matched?, scheme, URL credentials?, #files)")
     rep.assumptions += ["urllib.parse.urlparse is exercised on the generated grammar, not modelled beyond it",
-                        "taint scan of log files / clean scripts / file lists of full runs is part of the "
-                        "pipeline harness (C01 runs with credentials)"]
+                        "taint scan: complete runs with a URL password and an auth.conf password, file lists and "
+                        "clean scripts on, a failing file; every path name below base_path, every file of var/ and "
+                        "every logged line is searched for the two passwords"]
     C.proof_step(rep, thorough=(rep.tier == "thorough"))
     rng = random.Random(rep.seed + 20)
     sb = Path(os.path.realpath(tempfile.mkdtemp(prefix="vsb_c20_", dir=os.environ.get("VERIF_TMP", "/tmp"))))
     try:
         rows, found = run_auth(rep, rng, 500 if rep.tier == "quick" else 12000, sb)
         prow, f2 = run_printers(rep, rng, 300 if rep.tier == "quick" else 6000)
+        f2 |= run_taint(rep, random.Random(rep.seed + 2020), 6 if rep.tier == "quick" else 150)
     finally:
         shutil.rmtree(sb, ignore_errors=True)
     header = HEADER + COQ_DEFS
